@@ -104,6 +104,10 @@ def _fixed_geoms():
         # double duct with bypass flow: interior flow < assembly flow
         {'g': 'dd19', 'nr': 3, 'pd': 1.12, 'hd': 30.0, 'wf': 0.8,
          'slack': 0.15, 'n_duct': 2, 'byp': 0.1},
+        # pin bundle that does not start at the core bottom (unrodded
+        # regions below and above): bundle length != core length != z_top
+        {'g': 'lo19', 'nr': 3, 'pd': 1.18, 'hd': 25.0, 'wf': 0.85,
+         'slack': 0.08, 'n_duct': 1, 'lower': 0.12, 'upper': 0.85},
     ]
 
 
@@ -134,6 +138,9 @@ def _random_geom(rng, k, max_rings):
         g['hd'] = 0.0                              # wire_pitch = 0 as well
     if g['n_duct'] == 2:
         g['byp'] = float(rng.uniform(0.02, 0.2))
+    if rng.random() < 0.3:
+        g['lower'] = float(rng.uniform(0.03, 0.18))
+        g['upper'] = float(rng.uniform(0.65, 0.97))
     return g
 
 
@@ -200,6 +207,12 @@ def make_type(g, triple, gm, length=LENGTH):
          'corr_flowsplit': triple[2]}
     if g['n_duct'] > 1:
         t['bypass_gap_flow_fraction'] = g.get('byp', 0.05)
+    if g.get('lower'):
+        t['AxialRegion'] = {
+            'lo0': {'z_lo': 0.0, 'z_hi': float(g['lower'] * length),
+                    'vf_coolant': 0.3, 'model': 'simple'},
+            'up0': {'z_lo': float(g['upper'] * length), 'z_hi': float(length),
+                    'vf_coolant': 0.3, 'model': 'simple'}}
     grid_z = [float(f * length) for f in GRID_FRAC]
     if gm == 'reh':
         t['SpacerGrid'] = {'corr': 'REH', 'axial_positions': grid_z,
